@@ -95,6 +95,12 @@ CHECKS = {
         "note": TRUST + " Memory safety of the epoch-managed ordered index (TreeSlot), AlignedBuffer and the scc/crossbeam dependencies is NOT proved; AddressSanitizer does not instrument the prebuilt standard library. Miri was not used (io_uring and threads with real files are outside what it supports).",
         "design": "DESIGN.md section 5 C20",
     },
+    "C18": {
+        "category": "proof",
+        "text": "PARTIAL. Proved in Coq: the 'acquired while held' relation of the store's locks (retirement flush/pending mutexes, metadata, device, free-space RwLocks, shard buffers, cache eviction, thread handles), regenerated from the source text on every run, respects a rank; and for any relation that respects a rank no set of threads acquiring locks along it can be stuck on each other (no lock-order deadlock). A change that nests two of these locks the other way round breaks the obligation. Not provable with this technique: real termination (scheduler, channels, condition variables, bounded retry loops against a live device, the sweeper's stop). That part is decided by execution under watchdogs: contention scenarios (concurrent flushers, full device, failing device, sweeper, shutdown with work pending) and the C07 controller parking threads inside every optimistic window.",
+        "note": TRUST + " The lock relation comes from a syntactic analysis (tools/gen_locks.py); scc/crossbeam internals are outside it. Absence of a hang in the explored runs is evidence, not proof.",
+        "design": "DESIGN.md section 5 C18",
+    },
     "C15": {
         "text": "Coq: the read-only recovery used for the migration source writes nothing for any image and outcome (source untouched); a successful migration spec means no destination existed, the source is v1/v2 with a successful read-only recovery, and the destination record list is exactly the recovered keys with identical timestamps and absolute expiries (TTL filtering off, so expired newest generations are copied and no older value can reappear). Tie: the real migrate() on engine-built and damaged legacy images vs migrate_spec of the source image (outcome, report, destination contents read back by the real store), with an oracle for non-destructiveness (source hash, no publication or temporary on failure, existing destination untouched, v3 result).",
         "note": TRUST + " Filesystem operations (hard_link publication, rollback, directory sync) are observed, not modelled; record-by-record verification inside migrate() is covered only through its outcome.",
@@ -112,7 +118,7 @@ CHECKS = {
     },
 }
 
-REASON_PENDING = "not yet built in this round (see DESIGN.md section 9 build order); no check is claimed"
+REASON_PENDING = "no check is claimed for this property at this commit"
 
 
 def main():
